@@ -1,6 +1,7 @@
 /-
 Helper lemmas (C08): `PartialEq` / `PartialOrd` of tries against the rows they hold, under
-the invariant "no present-but-empty child, no forced leaf".
+the invariant "no present-but-empty child, no forced leaf" (needed for the `changed` flag of merge; since the
+F7/F22 fix comparison only needs well-formedness).
 -/
 import HvGht.Lemmas.Query
 
@@ -83,25 +84,26 @@ theorem aux_leaf_cmp (a b : Leaf) (ha : a.rows.Nodup) (hb : b.rows.Nodup) :
 
 /-! ### `PartialEq for GhtInner` -/
 
-theorem aux_innerEq_true {α : Type} (ceq : α → α → Bool) (a b : List (Key × α)) :
-    innerEq ceq a b = true ↔
+theorem aux_innerEq_true {α : Type} (ceq : α → α → Bool) (a b : List (Key × α)) (nda : (keysOf a).Nodup) :
+    innerEqCore ceq a b = true ↔
       a.length = b.length ∧
       ∀ k ∈ keysOf a, ∃ o t, b.lookup k = some o ∧ a.lookup k = some t ∧ ceq t o = true := by
-  unfold innerEq
+  unfold innerEqCore
   by_cases hlen : a.length = b.length
-  · simp only [hlen, bne_self_eq_false, Bool.false_eq_true, if_false, List.all_eq_true, true_and, keysOf]
+  · simp only [hlen, bne_self_eq_false, Bool.false_eq_true, if_false, List.all_eq_true, true_and]
     constructor
     · intro h k hk
-      have := h k hk
+      obtain ⟨t, ht⟩ := Option.isSome_iff_exists.mp (aux_lookup_isSome.mpr hk)
+      have := h (k, t) (aux_lookup_mem ht)
       cases hb : b.lookup k with
       | none => simp [hb] at this
-      | some o =>
-        cases hq : a.lookup k with
-        | none => simp [hb, hq] at this
-        | some t => exact ⟨o, t, rfl, rfl, by simpa [hb, hq] using this⟩
-    · intro h k hk
+      | some o => exact ⟨o, t, rfl, ht, by simpa [hb] using this⟩
+    · rintro h ⟨k, c⟩ hkc
+      have hk : k ∈ keysOf a := List.mem_map.mpr ⟨(k, c), hkc, rfl⟩
       obtain ⟨o, t, h1, h2, h3⟩ := h k hk
-      simp [h1, h2, h3]
+      have : a.lookup k = some c := aux_lookup_of_mem nda hkc
+      rw [this] at h2; injection h2 with h2; subst h2
+      simp [h1, h3]
   · have : (a.length != b.length) = true := by simpa using hlen
     simp [this, hlen]
 
@@ -112,8 +114,8 @@ theorem aux_innerEq_iff {α : Type} (R : α → List Row) (head : Row → Key) (
     (hb : ∀ k c, b.lookup k = some c → (∀ r ∈ R c, head r = k) ∧ R c ≠ [])
     (hceq : ∀ k x y, a.lookup k = some x → b.lookup k = some y →
       (ceq x y = true ↔ ∀ r, r ∈ R x ↔ r ∈ R y)) :
-    innerEq ceq a b = true ↔ ∀ r, r ∈ lrows R a ↔ r ∈ lrows R b := by
-  rw [aux_innerEq_true]
+    innerEqCore ceq a b = true ↔ ∀ r, r ∈ lrows R a ↔ r ∈ lrows R b := by
+  rw [aux_innerEq_true _ _ _ nda]
   constructor
   · rintro ⟨hlen, hall⟩
     have sub : ∀ k ∈ keysOf a, k ∈ keysOf b := by
@@ -183,21 +185,61 @@ theorem aux_innerEq_iff {α : Type} (R : α → List Row) (head : Row → Key) (
       have : k' = k := by rw [← (ha k' c' hl').1 r hr', (hb k o ho).1 r hr]
       subst this; rw [hc] at hl'; injection hl' with e; subst e; exact hr'
 
-theorem aux_geq_iff (n d : Nat) (a b : Ght n) (ga : Good n d a) (gb : Good n d b) :
+/-! ### children without rows are skipped -/
+
+theorem aux_liveKids_nodup {α : Type} (ne : α → Bool) (cs : List (Key × α)) (nd : (keysOf cs).Nodup) :
+    (keysOf (liveKids ne cs)).Nodup := by
+  unfold keysOf liveKids at *
+  exact (List.filter_sublist.map _).nodup nd
+
+theorem aux_mem_lrows_liveKids {α : Type} (R : α → List Row) (ne : α → Bool)
+    (hne : ∀ c, ne c = !(R c).isEmpty) (cs : List (Key × α)) (r : Row) :
+    r ∈ lrows R (liveKids ne cs) ↔ r ∈ lrows R cs := by
+  simp only [lrows, liveKids, List.mem_flatMap, List.mem_filter]
+  constructor
+  · rintro ⟨kc, ⟨h1, _⟩, h2⟩; exact ⟨kc, h1, h2⟩
+  · rintro ⟨kc, h1, h2⟩
+    refine ⟨kc, ⟨h1, ?_⟩, h2⟩
+    rw [hne]; cases h : R kc.2 with
+    | nil => rw [h] at h2; cases h2
+    | cons _ _ => rfl
+
+/-- a child found among the live children is a child, and it holds a row -/
+theorem aux_liveKids_lookup {α : Type} (R : α → List Row) (ne : α → Bool)
+    (hne : ∀ c, ne c = !(R c).isEmpty) (cs : List (Key × α)) {k : Key} {c : α}
+    (hl : (liveKids ne cs).lookup k = some c) : (k, c) ∈ cs ∧ R c ≠ [] := by
+  have hm := aux_lookup_mem hl
+  simp only [liveKids, List.mem_filter] at hm
+  refine ⟨hm.1, ?_⟩
+  have := hm.2; rw [hne] at this
+  intro h; simp [h] at this
+
+theorem aux_hasRows (n : Nat) (c : Ght n) : hasRows n c = !(grows n c).isEmpty := rfl
+
+/-- `==` ⇔ same set of rows, for all well-formed hash-set tries (empty children and `forced`
+leaves included) -/
+theorem aux_geq_iff (n d : Nat) (a b : Ght n) (wa : Wf .set n d a) (wb : Wf .set n d b) :
     geq n a b = true ↔ ∀ x, x ∈ grows n a ↔ x ∈ grows n b := by
   induction n generalizing d with
   | zero =>
-    have fa : a.toLeaf.forced = false := ga.2.2
-    have fb : b.toLeaf.forced = false := gb.2.2
-    simp only [geq, Leaf.eq, fa, fb, beq_self_eq_true, Bool.and_true, grows]
-    exact aux_hsEq_iff _ _ (ga.1 rfl) (gb.1 rfl)
+    simp only [geq, Leaf.eq, grows]
+    exact aux_hsEq_iff _ _ (wa rfl) (wb rfl)
   | succ n ih =>
-    simp only [geq, aux_grows_succ]
-    exact aux_innerEq_iff (grows n) (headAt d) (geq n) a.kids b.kids ga.1.1 gb.1.1
-      (fun k c hl => (aux_good_child ga hl).2)
-      (fun k c hl => (aux_good_child gb hl).2)
-      (fun k x y hx hy => ih (d + 1) x y (aux_good_child ga hx).1 (aux_good_child gb hy).1)
-
+    simp only [geq, aux_grows_succ, innerEq]
+    rw [aux_innerEq_iff (grows n) (headAt d) (geq n) _ _
+      (aux_liveKids_nodup _ _ wa.1) (aux_liveKids_nodup _ _ wb.1)
+      (fun k c hl => by
+        obtain ⟨hm, hne⟩ := aux_liveKids_lookup (grows n) _ (aux_hasRows n) _ hl
+        exact ⟨(wa.2 _ hm).2, hne⟩)
+      (fun k c hl => by
+        obtain ⟨hm, hne⟩ := aux_liveKids_lookup (grows n) _ (aux_hasRows n) _ hl
+        exact ⟨(wb.2 _ hm).2, hne⟩)
+      (fun k x y hx hy => by
+        obtain ⟨hmx, _⟩ := aux_liveKids_lookup (grows n) _ (aux_hasRows n) _ hx
+        obtain ⟨hmy, _⟩ := aux_liveKids_lookup (grows n) _ (aux_hasRows n) _ hy
+        exact ih (d + 1) x y (wa.2 _ hmx).1 (wb.2 _ hmy).1)]
+    exact forall_congr' fun r => by
+      rw [aux_mem_lrows_liveKids (grows n) _ (aux_hasRows n), aux_mem_lrows_liveKids (grows n) _ (aux_hasRows n)]
 
 /-! ### the invariant is kept by `insert`, `merge`, `new_from` -/
 
